@@ -314,7 +314,12 @@ def replay(ob):
     from ase import Atoms
     extra = [("single atom", Atoms("He", positions=[[5, 5, 5]], cell=[10, 10, 10], pbc=True)),
              ("H2 molecule", Atoms("H2", positions=[[5, 5, 5], [5.74, 5, 5]], cell=[10, 10, 10], pbc=True)),
-             ("water, no pbc", Atoms("H2O", positions=[[5, 5, 5], [5.9, 5, 5], [5, 5.9, 5]], cell=[10, 10, 10], pbc=False))]
+             ("water, no pbc", Atoms("H2O", positions=[[5, 5, 5], [5.9, 5, 5], [5, 5.9, 5]], cell=[10, 10, 10], pbc=False)),
+             # one-atom cells that are not isolated atoms: the class follows the dimensionality, not the atom count
+             ("one-atom fcc Cu cell", Atoms("Cu", positions=[[0, 0, 0]], cell=[[0, 1.805, 1.805], [1.805, 0, 1.805], [1.805, 1.805, 0]], pbc=True)),
+             ("one-atom sc Po cell, unwrapped atom", Atoms("Po", positions=[[3.9, -0.2, 0.1]], cell=[3.35, 3.35, 3.35], pbc=True)),
+             ("one-atom Cu monolayer", Atoms("Cu", positions=[[0, 0, 6]], cell=[[2.55, 0, 0], [1.275, 2.2084, 0], [0, 0, 12]], pbc=[True, True, False])),
+             ("one-atom Au chain", Atoms("Au", positions=[[0, 5, 5]], cell=[2.6, 10, 10], pbc=[True, False, False]))]
     for name, at in extra + structures():
         if name == "degenerate cell":
             continue
